@@ -119,6 +119,9 @@ class MarkerExpression(SingleMarker):
             ):
                 for _ in range(2 - dot_num):
                     pkg_version += ".0"
+                # the padded operand spells the bound differently: let the specifier
+                # be derived from the marker's own text, like for a parsed marker
+                return MarkerExpression(name, pkg_spec.operator, pkg_version)
             return MarkerExpression(
                 name, pkg_spec.operator, pkg_version, _specifier=specifier
             )
